@@ -473,8 +473,13 @@ def process_section(name: str = 'helper', encoder: str = 'json') -> str:
     return f'process {name} {{\n  run /bin/true;\n  encoder {encoder};\n}}\n'
 
 
+_API_COUNTER = [0]
+
+
 def api_section(name: str = 'helper', receive: list[str] | None = None, send: list[str] | None = None, changes: bool = True) -> str:
-    out = ['  api {', f'    processes [ {name} ];']
+    # unnamed api sections are named after time.time(), which stands still while a configuration is parsed here
+    _API_COUNTER[0] += 1
+    out = [f'  api section{_API_COUNTER[0]} {{', f'    processes [ {name} ];']
     if changes:
         out.append('    neighbor-changes;')
     if receive:
